@@ -46,6 +46,16 @@ CHECKS = {
             "with <=2 (thorough 3) optional parts: encoded text must match the RECUR grammar with FREQ first and denote exactly the supplied parts, decoding "
             "yields the reference's typed values, re-encoding is stable, and dateutil computes the same first 12 occurrences from the text as from an rrule built directly from the supplied parts.",
             "trusted: the part menus/reference typing in checks/c19.py, dateutil as the 'standard expander'; jointly unsatisfiable BY pairs are round-tripped but not expanded", "3/C19"),
+    "C16": ("explicit-state BFS over setter/deleter/add histories on real Event/Todo/Journal objects (fixpoint for setters) plus exhaustive enumeration of parsed property combinations, vs. a reference model of the RFC start/end/duration rules",
+            "Setter/deleter histories are searched to fixpoint (117 states x 49 operations per class, every operation in every reachable state), "
+            "histories with add() to depth 3 (thorough 4); all combinations of <=2 DTSTART/<=2 end/<=2 DURATION lines (typed and mistyped) are parsed under both "
+            "providers. In every state the stored properties equal the model's, at most one of end/DURATION after setter-only histories, and start/end/duration give the model's value or exactly the documented error class.",
+            "trusted: the Model class in checks/c16.py (RFC 5545 3.6.1/3.6.2/3.8.2 rules); value menu of 8 date/date-time values of 4 kinds and 4 durations incl. zero", "3/C16"),
+    "C18": ("bounded-exhaustive enumeration of calendars (subsets of zoned-value placements x subsets of pre-existing VTIMEZONEs x build path x provider) followed by the fixed query/repair history, vs. a set-comprehension reference",
+            "Every subset of <=3 of 10 placements (depth 1-3, multi-line RDATE, FREEBUSY periods, zoned TRIGGER in a nested alarm, X- property) x all 64 subsets of 6 VTIMEZONE presets "
+            "(used, duplicate, unused, defining the unknown id, unknown unused, without TZID), parsed and API-built: get_used/get_missing equal the reference sets and never fail; after add_missing_timezones "
+            "every known missing id has exactly one VTIMEZONE, unknown ids stay missing, existing VTIMEZONEs are untouched, and two further calls add nothing.",
+            "trusted: the placement table in checks/c18.py; add_missing_timezones is called with a 2024 window (default window for single placements) to keep generation cheap", "3/C18"),
 }
 REASON_PENDING = "check under construction in this session; not claimed until it has been built, silenced on the unchanged tree and shown to detect a seeded change"
 ALL = [f"C{i:02d}" for i in range(1, 21)]
